@@ -15,7 +15,7 @@ var profiles = map[string]Profile{
 	"faults":     {Name: "faults", Blocks: 24, MaxTx: 4, Oracle: true, Wrongness: 5, Faults: true, Mint: true, PeriodMax: 4},
 	"adversarial": {Name: "adversarial", Blocks: 20, MaxTx: 4, Oracle: true, Wrongness: 20, Adversarial: true, BigPeriods: true, Internal: true, Mint: true},
 	"imported":   {Name: "imported", Blocks: 16, MaxTx: 3, Oracle: true, Wrongness: 10, Faults: true, Imported: true, PeriodMax: 8, VotePeriods: []uint64{1, 1, 2}},
-	"periods":    {Name: "periods", Blocks: 20, MaxTx: 4, Oracle: true, Wrongness: 5, BigPeriods: true},
+	"periods":    {Name: "periods", Blocks: 20, MaxTx: 4, Oracle: true, Wrongness: 5, BigPeriods: true, Internal: true},
 }
 
 type Stats struct {
@@ -164,6 +164,8 @@ func main() {
 		runArithCmd(os.Args[2:])
 	case "chain":
 		runChainCmd(os.Args[2:])
+	case "inventory":
+		runInventoryCmd(os.Args[2:])
 	default:
 		fmt.Println("unknown command", os.Args[1])
 		os.Exit(2)
